@@ -64,6 +64,11 @@ def decoder_worker(
             break
         codec, encoded_frame = task
 
+        if not encoded_frame.data:
+            # nothing to decode (e.g. a frame made of padding-only packets); an
+            # empty packet would put libav's decoder into draining mode for good
+            continue
+
         if codec.name != codec_name:
             decoder = get_decoder(codec)
             codec_name = codec.name
